@@ -432,7 +432,7 @@ func c19JudgeDev(r *mon.Run, level string, job *c19DevJob, out *c19DevOut) {
 							map[string]interface{}{"final": st.Final, "late": st.Late, "logs": out.Logs})
 						return
 					}
-				} else if !loaded[fin] {
+				} else if !loaded[fin] && !burstTransient[fin] {
 					sig := "wrong-version"
 					if fin == "down" {
 						sig = "down-after-failed-edit"
